@@ -342,6 +342,14 @@ func (p *parser) postfix() Expr {
 					args = append(args, &EIdent{p.typeName()})
 					continue
 				}
+				if id, isId := x.(*EIdent); isId && len(args) == 0 && id.Name == "allelems" {
+					// the argument is a type (possibly generic)
+					args = append(args, &EIdent{p.typeName()})
+					if p.isOp(",") {
+						p.next()
+					}
+					continue
+				}
 				args = append(args, p.iff())
 				if p.isOp(",") {
 					p.next()
@@ -530,6 +538,7 @@ type FuncSpec struct {
 	File      string
 	Line      int
 	FreshRet  bool
+	DetFn       string // result == DetFn(args...) is assumed at call sites (determinism assumption)
 	Extensional bool // fixed-size array values get an extensionality axiom in this function's VCs
 	Opaque    []string // callee names to treat as opaque (havoc per their modset) even if they have bodies
 	Hide      []string // spec functions kept uninterpreted in this function's VCs
@@ -802,6 +811,10 @@ func (db *SpecDB) LoadSpecFile(path, pkgPath string) error {
 					return err
 				}
 				cur.Ensures = append(cur.Ensures, c)
+			case "function":
+				// function f: the function's result is ASSUMED to be a deterministic function f(args...) of its argument
+				// values (f an uninterpreted spec function); callers learn result == f(args), the body is not checked against it
+				cur.DetFn = strings.TrimSpace(rest)
 			case "modifies":
 				cur.HasMod = true
 				if rest != "" && rest != "nothing" {
